@@ -50,14 +50,14 @@ func (g *gen) leaf() *V {
 	case 3:
 		return &V{K: "bytes", C: g.can()}
 	case 4:
-		n := g.r.Intn(3)
+		n := g.r.Intn(5) // 0 .. 4 elements: loops over the elements have boundaries at the first and the last one
 		v := &V{K: "strs"}
 		for i := 0; i < n; i++ {
 			v.Cs = append(v.Cs, g.can())
 		}
 		return v
 	case 5:
-		n := 1 + g.r.Intn(2)
+		n := 1 + g.r.Intn(4)
 		v := &V{K: "bytess"}
 		for i := 0; i < n; i++ {
 			v.Cs = append(v.Cs, g.can())
@@ -150,7 +150,7 @@ func (g *gen) slice(depth int) *V {
 	default:
 		shape = &V{K: "ptr", Elem: g.hand(depth - 1)}
 	}
-	n := g.r.Intn(3)
+	n := g.r.Intn(4)
 	v := &V{K: "slice", Elem: shape}
 	for i := 0; i < n; i++ {
 		if i == 0 {
@@ -169,9 +169,17 @@ func (g *gen) mapLeaf() *V {
 	case 3:
 		return &V{K: "bytes", C: g.can()}
 	case 4:
-		return &V{K: "strs", Cs: []int{g.can()}}
+		v := &V{K: "strs"}
+		for i := g.r.Intn(4); i >= 0; i-- {
+			v.Cs = append(v.Cs, g.can())
+		}
+		return v
 	case 5:
-		return &V{K: "bytess", Cs: []int{g.can()}}
+		v := &V{K: "bytess"}
+		for i := g.r.Intn(3); i >= 0; i-- {
+			v.Cs = append(v.Cs, g.can())
+		}
+		return v
 	default:
 		return &V{K: "int", I: int64(g.r.Intn(50)) + 1}
 	}
@@ -388,10 +396,14 @@ func (g *gen) payload(depth int) (string, *V) {
 	case 7, 8:
 		return "val", g.slice(depth)
 	case 9:
+		v := &V{K: "strs"}
 		if g.r.Bool() {
-			return "val", &V{K: "strs", Cs: []int{g.can(), g.can()}}
+			v.K = "bytess"
 		}
-		return "val", &V{K: "bytess", Cs: []int{g.can()}}
+		for i := g.r.Intn(4); i >= 0; i-- {
+			v.Cs = append(v.Cs, g.can())
+		}
+		return "val", v
 	case 10:
 		if g.r.Bool() {
 			return "val", &V{K: "ptr", Elem: &V{K: "str", C: g.can()}}
